@@ -46,7 +46,7 @@ def main():
     if "--jobs" in a:
         jobs = int(a[a.index("--jobs") + 1])
         del a[a.index("--jobs"):a.index("--jobs") + 2]
-    ids = a or sorted(x for x in os.listdir(os.path.join(VERIF, "seeded")) if os.path.isdir(os.path.join(VERIF, "seeded", x)))
+    ids = a or sorted(x for x in os.listdir(os.path.join(VERIF, "seeded")) if os.path.isdir(os.path.join(VERIF, "seeded", x)) and not x.startswith("_"))
     with ThreadPoolExecutor(max_workers=jobs) as ex:
         out = dict(ex.map(one, ids))
     head = subprocess.run("git -C /repo rev-parse --short HEAD", shell=True, capture_output=True, text=True).stdout.strip()
